@@ -48,6 +48,15 @@ func goVal(n int) any {
 		valTab[n] = v
 		return v
 	}
+	if n == 1009 || n == 1010 { // POINTERS to slices (a handle on a work list, not a work list): not slices — one value, one batch item
+		if n == 1009 {
+			v = &[]any{1, "x", 3.5}
+		} else {
+			v = &[]int{}
+		}
+		valTab[n] = v
+		return v
+	}
 	if n >= 1001 && n <= 1006 { // typed nils: one token per type (all nil values of one type are the same value); 1005/1006: payloads whose type implements error
 		switch n {
 		case 1005:
